@@ -9,6 +9,7 @@ import (
 	"strconv"
 	"strings"
 	"sync"
+	"sync/atomic"
 	"time"
 
 	"rvharness/internal/core"
@@ -47,7 +48,7 @@ type c14Case struct {
 const (
 	c14Tick   = int64(1) << 20
 	c14Second = int64(time.Second)
-	c14Ms        = int64(time.Millisecond)
+	c14Ms     = int64(time.Millisecond)
 	// epsEarly: the assumed bound on how late the clock goroutine may wake (the model's eps) when an
 	// early timeout is judged for a deadline computed from a running clock's possibly stale time.
 	// (On a loaded machine wake-ups 5-6 ms late were observed; a deadline made from a clock that was
@@ -56,12 +57,12 @@ const (
 )
 
 var (
-	c14Base      = time.Now()
-	c14Started   bool
-	c14StartNs   int64
-	c14CatInput  string
-	c14MedInput  string
-	c14CalibOnce sync.Once
+	c14Base       = time.Now()
+	c14Started    bool
+	c14StartNs    int64
+	c14CatInput   string
+	c14MedInput   string
+	c14CalibOnce  sync.Once
 	c14CatNatural time.Duration
 	c14Failed     int
 	c14Hung       bool
@@ -130,6 +131,53 @@ func c14StopClock() bool {
 	}
 }
 
+// A shadow ticker does what runClock does (sleep one period, note the time) next to the real one; how
+// stale its note is when a timed call starts estimates the scheduler term eps of the model.  It only
+// feeds a note in the evidence.
+var (
+	c14ShadowLast   atomic.Int64
+	c14ShadowPeriod atomic.Int64
+	c14ShadowN      int
+	c14ShadowOver   [4]int // staleness beyond one period: >1ms, >3ms, >10ms, >50ms
+	c14ShadowMax    int64
+	c14ShadowMu     sync.Mutex
+)
+
+func c14ShadowRun(stop chan struct{}) {
+	for {
+		select {
+		case <-stop:
+			return
+		default:
+		}
+		p := c14ShadowPeriod.Load()
+		if p <= 0 {
+			p = c14Ms
+		}
+		time.Sleep(time.Duration(p))
+		c14ShadowLast.Store(c14Now())
+	}
+}
+
+func c14ShadowSample() {
+	last, p := c14ShadowLast.Load(), c14ShadowPeriod.Load()
+	if last == 0 || p <= 0 {
+		return
+	}
+	over := c14Now() - last - p
+	c14ShadowMu.Lock()
+	defer c14ShadowMu.Unlock()
+	c14ShadowN++
+	for i, lim := range []int64{c14Ms, 3 * c14Ms, 10 * c14Ms, 50 * c14Ms} {
+		if over > lim {
+			c14ShadowOver[i]++
+		}
+	}
+	if over > c14ShadowMax {
+		c14ShadowMax = over
+	}
+}
+
 // observations ---------------------------------------------------------------------------------
 
 type c14Match struct {
@@ -188,6 +236,7 @@ func c14RunMatch(kind string, d int64) (timedOut bool, other string, t0, t1 int6
 		re, in = regexp2.MustCompile(`a+b`), "xxaab"
 	}
 	re.MatchTimeout = time.Duration(d)
+	c14ShadowSample()
 	t0 = c14Now()
 	_, err := re.MatchString(in)
 	t1 = c14Now()
@@ -210,14 +259,15 @@ func c14Execute(cs c14Case, lateAllow int64) *c14Run {
 		return r
 	}
 	regexp2.SetTimeoutCheckPeriod(time.Duration(cs.PeriodNs))
+	c14ShadowPeriod.Store(cs.PeriodNs)
 	st := int64(0)
 	if c14Started {
 		st = 1
 	}
 	r.Init = [3]int64{st, c14StartNs, c14Now()}
 	nextID := 0
-	endEst := int64(0)   // when the clock is planned to have left its loop (upper estimate), 0 = not running
-	seenAbsent := true   // goroutine absent at the last look and nothing armed since
+	endEst := int64(0) // when the clock is planned to have left its loop (upper estimate), 0 = not running
+	seenAbsent := true // goroutine absent at the last look and nothing armed since
 	armed := func(t0, d int64) {
 		if d == math.MaxInt64 {
 			return
@@ -424,14 +474,17 @@ func c14ParseModel(ans string) (*c14Model, error) {
 
 type c14Finding struct {
 	Kind, Key, Summary, Expected, Got string
+	Ev                                int // event index: a finding is confirmed only by the same class at the same event
 }
 
 func c14Judge(cs c14Case, r *c14Run, m *c14Model, lateAllow int64) (fs []c14Finding, buckets []string) {
 	per := cs.PeriodNs
+	curEv := -1
 	add := func(kind, key, sum, exp, got string) {
-		fs = append(fs, c14Finding{kind, key, sum, exp, got})
+		fs = append(fs, c14Finding{kind, key, sum, exp, got, curEv})
 	}
 	for _, x := range r.Matches {
+		curEv = x.Ev
 		el := x.TAfter - x.TBefore
 		desc := fmt.Sprintf("event %d: %s match with MatchTimeout=%dns (period %dns)", x.Ev, x.Kind, x.D, per)
 		buckets = append(buckets, "match:"+x.Kind, "timeout:"+c14DClass(x.D, per))
@@ -503,6 +556,7 @@ func c14Judge(cs c14Case, r *c14Run, m *c14Model, lateAllow int64) (fs []c14Find
 		}
 	}
 	for _, s := range r.Stops {
+		curEv = s.Ev
 		buckets = append(buckets, "stop")
 		if s.AliveRet {
 			add("impl-violation", "alive-after-stop", fmt.Sprintf("event %d: runClock goroutine still present 100ms after StopTimeoutClock returned", s.Ev), "goroutine gone", "present")
@@ -516,6 +570,7 @@ func c14Judge(cs c14Case, r *c14Run, m *c14Model, lateAllow int64) (fs []c14Find
 		return
 	}
 	for i, p := range r.Probes {
+		curEv = p.Ev
 		mp := m.Probes[i]
 		if p.Alive {
 			buckets = append(buckets, "probe:alive")
@@ -588,7 +643,7 @@ func c14Once(c *core.Ctx, cs c14Case) ([]c14Finding, []string, error) {
 	la := c14LateAllow(c)
 	r := c14Execute(cs, la)
 	if r.Hung != "" {
-		return []c14Finding{{"impl-violation", "stop-hang", r.Hung + " (the clock goroutine does not leave its loop)", "returns after about one period", "still blocked after 5s"}}, nil, nil
+		return []c14Finding{{"impl-violation", "stop-hang", r.Hung + " (the clock goroutine does not leave its loop)", "returns after about one period", "still blocked after 5s", -1}}, nil, nil
 	}
 	ans, err := c.RunDriver([]string{c14DriverLine(cs, r)})
 	if err != nil {
@@ -604,9 +659,15 @@ func c14Once(c *core.Ctx, cs c14Case) ([]c14Finding, []string, error) {
 
 func c14Check(c *core.Ctx, cases []c14Case) []core.Outcome {
 	outs := make([]core.Outcome, len(cases))
+	stopShadow := make(chan struct{})
+	go c14ShadowRun(stopShadow)
 	defer func() {
+		close(stopShadow)
 		if c14StopClock() {
 			regexp2.SetTimeoutCheckPeriod(regexp2.DefaultClockPeriod)
+		}
+		if c14ShadowN > 0 && c.ReplayCase == nil {
+			c.Result.Notes = append(c.Result.Notes, fmt.Sprintf("C14 scheduler noise during the leg (assumption eps): a shadow ticker sleeping one clock period was, at the start of %d timed calls, stale by more than period+1ms %d times, +3ms %d, +10ms %d, +50ms %d (max %.1fms beyond one period); the leg assumes eps <= 10ms for earliness and re-runs a history before reporting", c14ShadowN, c14ShadowOver[0], c14ShadowOver[1], c14ShadowOver[2], c14ShadowOver[3], float64(c14ShadowMax)/1e6))
 		}
 	}()
 	for i, cs := range cases {
@@ -636,10 +697,11 @@ func c14Check(c *core.Ctx, cases []c14Case) []core.Outcome {
 		}
 		// Timing observations are confirmed before they are reported: the history is run twice more and
 		// only findings of a class seen in all three runs count (a loaded machine delays goroutines).
+		ck := func(f c14Finding) string { return fmt.Sprintf("%s@%d", f.Key, f.Ev) }
 		confirmed := map[string]c14Finding{}
 		for _, f := range fs {
-			if _, ok := confirmed[f.Key]; !ok {
-				confirmed[f.Key] = f
+			if _, ok := confirmed[ck(f)]; !ok {
+				confirmed[ck(f)] = f
 			}
 		}
 		for k := 0; k < 2 && len(confirmed) > 0; k++ {
@@ -650,13 +712,13 @@ func c14Check(c *core.Ctx, cases []c14Case) []core.Outcome {
 			}
 			seen := map[string]bool{}
 			for _, f := range fs2 {
-				seen[f.Key] = true
+				seen[ck(f)] = true
 			}
-			for key := range confirmed {
+			for key, f := range confirmed {
 				if !seen[key] {
-					o.Buckets = append(o.Buckets, "unconfirmed:"+key)
+					o.Buckets = append(o.Buckets, "unconfirmed:"+f.Key)
 					if len(c.Result.Notes) < 12 {
-						c.Result.Notes = append(c.Result.Notes, fmt.Sprintf("C14 history %d: finding not confirmed by re-running the history (scheduling noise, not counted): %s: %s (expected %s, got %s)", i, key, confirmed[key].Summary, confirmed[key].Expected, confirmed[key].Got))
+						c.Result.Notes = append(c.Result.Notes, fmt.Sprintf("C14 history %d: finding not confirmed by re-running the history (scheduling noise, not counted): %s: %s (expected %s, got %s)", i, f.Key, f.Summary, f.Expected, f.Got))
 					}
 					delete(confirmed, key)
 				}
@@ -678,7 +740,7 @@ func c14Check(c *core.Ctx, cases []c14Case) []core.Outcome {
 			return keys[a] < keys[b]
 		})
 		f := confirmed[keys[0]]
-		o.Fail = &core.Failure{Kind: f.Kind, Key: f.Key, Summary: f.Summary + " [seen in 3 of 3 runs of the history; all confirmed classes: " + strings.Join(keys, ", ") + "]", Expected: f.Expected, Got: f.Got}
+		o.Fail = &core.Failure{Kind: f.Kind, Key: f.Key, Summary: f.Summary + " [seen at this event in 3 of 3 runs of the history; all confirmed class@event: " + strings.Join(keys, ", ") + "]", Expected: f.Expected, Got: f.Got}
 	}
 	return outs
 }
@@ -793,8 +855,8 @@ func init() {
 	core.Register("C14", func(c *core.Ctx) {
 		core.RunLeg(c, core.Leg[c14Case]{
 			Name: "H", Kind: "oracle+correspondence",
-			Rule: "histories of 6-12 events on the real process-wide clock with SetTimeoutCheckPeriod(1ms) (every 4th: 4 or 16 c14Ms): catastrophic (a+)+$ matches with MatchTimeout 20-81ms, matches of a few c14Ms and instant matches with timeouts from 20ms to MaxInt64 (incl. MaxInt64-1, MaxInt64-period, MaxInt64-period+1), idle gaps 0-120ms, one gap beyond deadline+1s+period per history, StopTimeoutClock, 2-4 concurrent matches with different deadlines; a stack dump after every event. Oracle: a catastrophic match returns a timeout error, no timeout is reported before d - 2 ticks - eps (eps = 10ms for a deadline made while the clock was running, 0 when it was seen stopped), none later than d + 2 periods + 1 tick + allowance (150ms quick / 250ms thorough), the goroutine is gone after StopTimeoutClock and once every deadline + 1s + 2 periods (+allowance) has passed. Correspondence: the same history with measured timestamps run on the Lean model (ideal ticks): no timeout before the model's deadline can be reached (sharp when the clock was seen stopped before the call), goroutine present while the model's clock runs, gone after it left its loop. A finding counts only if its class recurs in 3 of 3 runs of the history. non-trivial = more than one event; distinct by history",
-			Corpus: c14Corpus(), N: c.N(5, 110), Gen: c14Gen, Check: c14Check,
+			Rule:   "histories of 6-12 events on the real process-wide clock with SetTimeoutCheckPeriod(1ms) (every 4th: 4 or 16 c14Ms): catastrophic (a+)+$ matches with MatchTimeout 20-81ms, matches of a few c14Ms and instant matches with timeouts from 20ms to MaxInt64 (incl. MaxInt64-1, MaxInt64-period, MaxInt64-period+1), idle gaps 0-120ms, one gap beyond deadline+1s+period per history, StopTimeoutClock, 2-4 concurrent matches with different deadlines; a stack dump after every event. Oracle: a catastrophic match returns a timeout error, no timeout is reported before d - 2 ticks - eps (eps = 10ms for a deadline made while the clock was running, 0 when it was seen stopped), none later than d + 2 periods + 1 tick + allowance (150ms quick / 250ms thorough), the goroutine is gone after StopTimeoutClock and once every deadline + 1s + 2 periods (+allowance) has passed. Correspondence: the same history with measured timestamps run on the Lean model (ideal ticks): no timeout before the model's deadline can be reached (sharp when the clock was seen stopped before the call), goroutine present while the model's clock runs, gone after it left its loop. A finding counts only if its class recurs in 3 of 3 runs of the history. non-trivial = more than one event; distinct by history",
+			Corpus: c14Corpus(), N: c.N(9, 330), Gen: c14Gen, Check: c14Check,
 		})
 	})
 }
